@@ -47,6 +47,9 @@ pub struct Case {
     pub enabled: bool,
     /// varint form used by the client for the session id in the stream header (None = shortest)
     pub sid_form: Option<usize>,
+    /// incoming bidi stream: the application splits it into halves before the first read (as the
+    /// webtransport example server does) and reads from the receive half
+    pub split: bool,
 }
 
 #[derive(Debug, Clone, Default, PartialEq, Eq)]
@@ -194,6 +197,45 @@ pub fn execute(case: &Case, seed: u64, read: Policy, write: Policy) -> Outcome {
                     Err(e) => out2.borrow_mut().read_end = format!("accept-err:{}", conn_class(&e)),
                 },
                 Kind::InBidi => match session.accept_bi().await {
+                    Ok(Some(AcceptedBi::BidiStream(sid, s))) if case2.split => {
+                        out2.borrow_mut().stream_session = Some(sid_of(sid));
+                        let (tx, mut s) = h3::quic::BidiStream::split(s);
+                        if case2.async_read {
+                            let mut buf = [0u8; 7];
+                            loop {
+                                match s.read(&mut buf).await {
+                                    Ok(0) => {
+                                        out2.borrow_mut().read_end = "eof".into();
+                                        break;
+                                    }
+                                    Ok(n) => out2.borrow_mut().received.extend_from_slice(&buf[..n]),
+                                    Err(e) => {
+                                        out2.borrow_mut().read_end = format!("err:{e}");
+                                        break;
+                                    }
+                                }
+                            }
+                        } else {
+                            loop {
+                                match std::future::poll_fn(|cx| s.poll_data(cx)).await {
+                                    Ok(Some(mut b)) => {
+                                        let v = b.copy_to_bytes(b.remaining());
+                                        out2.borrow_mut().received.extend_from_slice(&v);
+                                    }
+                                    Ok(None) => {
+                                        out2.borrow_mut().read_end = "eof".into();
+                                        break;
+                                    }
+                                    Err(e) => {
+                                        out2.borrow_mut().read_end = format!("err:{e}");
+                                        break;
+                                    }
+                                }
+                            }
+                        }
+                        std::future::pending::<()>().await;
+                        drop(tx);
+                    }
                     Ok(Some(AcceptedBi::BidiStream(sid, mut s))) => {
                         out2.borrow_mut().stream_session = Some(sid_of(sid));
                         if case2.async_read {
@@ -442,7 +484,7 @@ pub fn judge(case: &Case, o: &Outcome) -> Vec<(String, String)> {
 }
 
 fn case_json(c: &Case, choices: &[u32], seed: u64, mode: &str) -> Value {
-    json!({"connect_id": c.connect_id.to_string(), "prior": c.prior, "kind": format!("{:?}", c.kind), "payload_len": c.payload_len, "fin": c.fin, "async_read": c.async_read, "enabled": c.enabled, "sid_form": c.sid_form, "choices": choices, "seed": seed, "mode": mode})
+    json!({"connect_id": c.connect_id.to_string(), "prior": c.prior, "kind": format!("{:?}", c.kind), "payload_len": c.payload_len, "fin": c.fin, "async_read": c.async_read, "enabled": c.enabled, "sid_form": c.sid_form, "split": c.split, "choices": choices, "seed": seed, "mode": mode})
 }
 
 pub fn run(args: &Args) -> i32 {
@@ -450,7 +492,7 @@ pub fn run(args: &Args) -> i32 {
     let bound = if thorough { 4 } else { 3 };
     let mut rep = Report::new("C19", args.tier, args.seed, "model_checking");
     rep.exhaustive = true;
-    rep.rule = format!("CONNECT request on stream id in {{0, 4, 8, 252, 256, 65536, 2^30}} (1-, 2-, 4- and 8-byte varints), accepted first or after 1-2 ordinary requests; then one WebTransport stream: client-opened uni (0x54 || session id || payload) or bidi (0x41 || session id || payload) with payload of 0, 1 or 40 position-coded bytes, session id in its shortest and in a padded varint form, stream left open or finished, read through poll_data or AsyncRead, delivered under EVERY execution with <= {bound} deviations (chunk cuts at any offset of header and payload, delayed delivery, scheduling) plus one byte per read; server-opened uni / bidi streams written under the default and the one-byte-at-a-time write acceptance; uni streams with the extension disabled. Oracle: session_id() = CONNECT stream id = id on incoming streams = varint after 0x54/0x41 on opened streams; payload delivered complete, in order, also when it shares a chunk with the header and the stream stays open. states = distinct (transport, bytes received) fingerprints; non-trivial = executions with a deviation.");
+    rep.rule = format!("CONNECT request on stream id in {{0, 4, 8, 252, 256, 65536, 2^30}} (1-, 2-, 4- and 8-byte varints), accepted first or after 1-2 ordinary requests; then one WebTransport stream: client-opened uni (0x54 || session id || payload) or bidi (0x41 || session id || payload) with payload of 0, 1 or 40 position-coded bytes, session id in its shortest and in a padded varint form, stream left open or finished, read through poll_data or AsyncRead (bidi: also after split() into halves before the first read), delivered under EVERY execution with <= {bound} deviations (chunk cuts at any offset of header and payload, delayed delivery, scheduling) plus one byte per read; server-opened uni / bidi streams written under the default and the one-byte-at-a-time write acceptance; uni streams with the extension disabled. Oracle: session_id() = CONNECT stream id = id on incoming streams = varint after 0x54/0x41 on opened streams; payload delivered complete, in order, also when it shares a chunk with the header and the stream stays open. states = distinct (transport, bytes received) fingerprints; non-trivial = executions with a deviation.");
     rep.assumptions = vec!["stream ids are chosen freely by the scripted client (gaps are legal in simnet)".into()];
     rep.bound_note = format!("deviation bound {bound}: all combinations of up to {bound} cuts / delays / scheduling deviations");
     let ids: Vec<u64> = vec![0, 4, 8, 252, 256, 65536, 1 << 30];
@@ -473,7 +515,10 @@ pub fn run(args: &Args) -> i32 {
                                 if sid_form.is_some() && (payload_len != 40 || prior > 0) {
                                     continue;
                                 }
-                                cases.push(Case { connect_id, prior, kind, payload_len, fin, async_read, enabled: true, sid_form });
+                                cases.push(Case { connect_id, prior, kind, payload_len, fin, async_read, enabled: true, sid_form, split: false });
+                                if kind == Kind::InBidi && payload_len > 0 && prior == 0 {
+                                    cases.push(Case { connect_id, prior, kind, payload_len, fin, async_read, enabled: true, sid_form, split: true });
+                                }
                             }
                         }
                     }
@@ -481,11 +526,11 @@ pub fn run(args: &Args) -> i32 {
             }
             for kind in [Kind::OutUni, Kind::OutBidi] {
                 for payload_len in [0usize, 40] {
-                    cases.push(Case { connect_id, prior, kind, payload_len, fin: true, async_read: false, enabled: true, sid_form: None });
+                    cases.push(Case { connect_id, prior, kind, payload_len, fin: true, async_read: false, enabled: true, sid_form: None, split: false });
                 }
             }
         }
-        cases.push(Case { connect_id, prior: 0, kind: Kind::InUni, payload_len: 40, fin: true, async_read: false, enabled: false, sid_form: None });
+        cases.push(Case { connect_id, prior: 0, kind: Kind::InUni, payload_len: 40, fin: true, async_read: false, enabled: false, sid_form: None, split: false });
     }
     let seed = args.seed;
     let deadline = std::time::Instant::now() + std::time::Duration::from_secs(if thorough { 1500 } else { 35 });
@@ -562,6 +607,7 @@ pub fn replay(r: &Value) -> i32 {
         async_read: r["async_read"].as_bool().unwrap(),
         enabled: r["enabled"].as_bool().unwrap(),
         sid_form: r["sid_form"].as_u64().map(|x| x as usize),
+        split: r["split"].as_bool().unwrap_or(false),
     };
     let seed = r["seed"].as_u64().unwrap_or(0);
     let choices: Vec<u32> = r["choices"].as_array().unwrap().iter().map(|v| v.as_u64().unwrap() as u32).collect();
